@@ -2,6 +2,9 @@
 
 Domain   G-PROG programs x all 8 configurations, plus the repository's test scripts and the
          pool programs as seed corpus.
+         Plus the SPECIALISED DOMAINS: the quick-tier case sets of the engines whose cases are whole
+         programs decided by this same oracle (C05 control-flow skeletons, C06 scope trees, C07
+         evaluation-order templates, C13 assignment families), under a seed of their own.
 Oracle   stdout equality; canonical equality of every user global; added names restricted to
          __ol_* / itertools / importlib; any exception from conversion or evaluation fails.
 """
@@ -19,7 +22,39 @@ RULE = ("programs are drawn by the typed, scope-aware generator G-PROG (Hypothes
         "imports) and each is converted and evaluated under all 8 configurations; the pool and the "
         "repository's 16 scripts are run as well. Originals that raise are discarded and counted. "
         "Non-trivial: >= 8 statements, >= 1 compound statement and >= 3 distinct feature tags "
-        "from the core list; distinct by source text.")
+        "from the core list; distinct by source text. Specialised domains: the quick case sets of "
+        "the C05/C06/C07/C13 engines (whole programs, same oracle) are run under a derived seed; "
+        "their classes are reported with the engine's prefix and their own non-triviality rule.")
+
+# engines whose cases are whole programs compared by oracle.check_program / kit.compare_obs, i.e.
+# by exactly what C01 states (a probe is a print the user could have written)
+SPECIALISED = ("C05", "C06", "C07", "C13")
+
+
+def specialised_domains(report):
+    import importlib
+    from ..runner import Report
+    for name in SPECIALISED:
+        eng = importlib.import_module("olverif.props.%s" % name.lower())
+        sub = Report(name, "quick", env.sub_seed(report.seed, "C01-specialised", name) % (1 << 31))
+        eng.run(sub)
+        report.evaluations += sub.evaluations
+        report.nontrivial.update(sub.nontrivial)
+        report.nontrivial_extra += sub.nontrivial_extra
+        for k, v in sub.classes.items():
+            report.classes["%s:%s" % (name.lower(), k)] += v
+        for k, v in sub.discarded.items():
+            report.discarded["%s:%s" % (name.lower(), k)] += v
+        for k, v in sub.exclusions.items():
+            report.exclusions["%s:%s" % (name.lower(), k)] = v
+        report.extra["specialised_%s_evaluations" % name.lower()] = sub.evaluations
+        for v in sub.violations:
+            if v["payload"].get("kind") == "program":
+                v = dict(v, what="[%s domain] %s" % (name, v.get("what", "")))
+                report.violations.append(v)
+            else:
+                report.notes.append("a %s-domain failure of payload kind %r is left to that property's own check"
+                                    % (name, v["payload"].get("kind")))
 
 
 def check_one(part, p, seed):
@@ -100,6 +135,7 @@ def run(report):
              for i in range(env.NPROC)]
     for part in env.pmap(_shard, items):
         report.absorb(part)
+    specialised_domains(report)
     report.assumptions += [
         "CPython executing the source is the reference; programs whose original raises are outside the domain",
         "callables are compared as the token 'callable' (a def necessarily becomes a lambda); their behaviour is observed through the calls the program makes",
